@@ -18,6 +18,7 @@ import (
 	"testing/synctest"
 	"time"
 
+	"github.com/benbjohnson/clock"
 	"github.com/libp2p/go-libp2p/core/connmgr"
 	"github.com/libp2p/go-libp2p/core/network"
 	"github.com/libp2p/go-libp2p/core/peer"
@@ -624,6 +625,170 @@ func c14Directed(out *verifh.Out, r *verifh.Rand) {
 	run(c14Cfg{3, 4, 10, 2, dts}, []c14Op{C(0, 0), C(1, 0), A(10), C(2, 0), C(3, 0), C(4, 0), trim, A(10), trim})
 }
 
+// ---- concurrent cases ----------------------------------------------------------
+// Trims racing with tag / connect operations from several goroutines (no
+// virtual time here: the manager runs on a mock clock that stands still during
+// the concurrent phase, so protection and grace of every peer are constant).
+// Ownership discipline (see Spec.v): worker g uses tag id g and connection id
+// 1+g of every peer; connection 0 of every peer is the base connection and is
+// never disconnected, so no peer entry is deleted or recreated and the final
+// state does not depend on the interleaving.
+const c14NW = 6
+
+func c14ConcurrentCase(out *verifh.Out, r *verifh.Rand) {
+	mock := clock.NewMock()
+	low := int64(1 + r.Intn(5))
+	high := low + int64(r.Intn(3))
+	grace := int64(10)
+	cm, err := NewConnManager(int(low), int(high), WithClock(mock),
+		WithGracePeriod(time.Duration(grace)*c14Unit), WithSilencePeriod(100000*time.Hour))
+	if err != nil {
+		panic(err)
+	}
+	defer cm.Close()
+	rec := &c14Rec{closed: map[[2]int]int{}}
+	var ids [c14NP]peer.ID
+	var conns [c14NP][1 + c14NW]*c14Conn
+	for p := 0; p < c14NP; p++ {
+		ids[p] = c14PeerID(p)
+		for c := 0; c <= c14NW; c++ {
+			dir := network.DirOutbound
+			if r.Bool() {
+				dir = network.DirInbound
+			}
+			conns[p][c] = &c14Conn{p: p, c: c, id: ids[p], dir: dir, streams: r.Intn(3), rec: rec,
+				addr: ma.StringCast(fmt.Sprintf("/ip4/10.1.%d.%d/tcp/4001", p, c))}
+		}
+	}
+	line := []int64{1, c14NP, low, high, grace}
+	var pre []c14Op
+	apply := func(o c14Op) {
+		p := int(o.a)
+		switch o.kind {
+		case 1:
+			cm.Notifee().Connected(nil, conns[p][o.b])
+		case 2:
+			cm.Notifee().Disconnected(nil, conns[p][o.b])
+		case 3:
+			cm.TagPeer(ids[p], fmt.Sprintf("t%d", o.b), int(o.v))
+		case 4:
+			cm.UntagPeer(ids[p], fmt.Sprintf("t%d", o.b))
+		case 5:
+			d := int(o.v)
+			cm.UpsertTag(ids[p], fmt.Sprintf("t%d", o.b), func(old int) int { return old + d })
+		case 9:
+			cm.Protect(ids[p], fmt.Sprintf("g%d", o.b))
+		case 11:
+			mock.Add(time.Duration(o.a) * c14Unit)
+		}
+	}
+	// prefix: old peers 0..3 connect, time passes, young peers 4,5 connect;
+	// some old peers are protected
+	nOld := 3 + r.Intn(2)
+	for p := 0; p < nOld; p++ {
+		pre = append(pre, c14Op{kind: 1, a: int64(p), b: 0})
+	}
+	pre = append(pre, c14Op{kind: 11, a: grace + int64(r.Intn(3))})
+	for p := nOld; p < c14NP; p++ {
+		pre = append(pre, c14Op{kind: 1, a: int64(p), b: 0})
+	}
+	nProt := r.Intn(2)
+	for p := 0; p < nProt; p++ {
+		pre = append(pre, c14Op{kind: 9, a: int64(p), b: int64(r.Intn(c14NG))})
+	}
+	for _, o := range pre {
+		apply(o)
+	}
+	line = append(line, int64(len(pre)))
+	for _, o := range pre {
+		line = append(line, o.words()...)
+	}
+	// worker op lists
+	work := make([][]c14Op, c14NW)
+	for g := range work {
+		n := 20 + r.Intn(60)
+		for i := 0; i < n; i++ {
+			p := int64(r.Intn(c14NP))
+			switch x := r.Intn(10); {
+			case x < 3:
+				work[g] = append(work[g], c14Op{kind: 1, a: p, b: int64(1 + g)})
+			case x < 5:
+				work[g] = append(work[g], c14Op{kind: 2, a: p, b: int64(1 + g)})
+			case x < 8:
+				work[g] = append(work[g], c14Op{kind: 3, a: p, b: int64(g), v: int64(r.Intn(9) - 2)})
+			case x < 9:
+				work[g] = append(work[g], c14Op{kind: 4, a: p, b: int64(g)})
+			default:
+				work[g] = append(work[g], c14Op{kind: 5, a: p, b: int64(g), v: int64(r.Intn(7) - 3)})
+			}
+		}
+	}
+	var wg, trimmers sync.WaitGroup
+	stop := make(chan struct{})
+	ntrims := int64(0)
+	var mu sync.Mutex
+	for t := 0; t < 2; t++ {
+		trimmers.Add(1)
+		go func() {
+			defer trimmers.Done()
+			for {
+				select {
+				case <-stop:
+					return
+				default:
+				}
+				cm.TrimOpenConns(context.Background())
+				mu.Lock()
+				ntrims++
+				mu.Unlock()
+			}
+		}()
+	}
+	for g := range work {
+		wg.Add(1)
+		go func(ops []c14Op) {
+			defer wg.Done()
+			for _, o := range ops {
+				apply(o)
+			}
+		}(work[g])
+	}
+	wg.Wait()
+	close(stop)
+	trimmers.Wait()
+	line = append(line, c14NW)
+	for g := range work {
+		line = append(line, int64(len(work[g])))
+		for _, o := range work[g] {
+			line = append(line, o.words()...)
+		}
+	}
+	line = append(line, int64(cm.GetInfo().ConnCount))
+	for p := 0; p < c14NP; p++ {
+		ti := cm.GetTagInfo(ids[p])
+		if ti == nil {
+			line = append(line, 0, 0, 0)
+			continue
+		}
+		sum := 0
+		for _, v := range ti.Tags {
+			sum += v
+		}
+		line = append(line, 1, int64(ti.Value), int64(sum))
+	}
+	closed, _ := rec.take()
+	line = append(line, int64(len(closed)))
+	for _, pc := range closed {
+		line = append(line, int64(pc[0]), int64(pc[1]))
+	}
+	out.Cover("cases.concurrent")
+	out.CoverN("concurrent.trims_during_phase", ntrims)
+	if len(closed) > 0 {
+		out.Cover("concurrent.cases_where_trims_closed_something")
+	}
+	out.Case(line)
+}
+
 var c14T *testing.T
 
 func TestVerifNothingC14(t *testing.T) {}
@@ -640,10 +805,17 @@ func TestVerifC14(t *testing.T) {
 	c14Directed(out, r)
 	n := 2500
 	if thorough {
-		n = 40000
+		n = 100000
 	}
 	for i := 0; i < n; i++ {
 		c14RandomCase(out, r, 25+r.Intn(45))
+	}
+	nc := 300
+	if thorough {
+		nc = 10000
+	}
+	for i := 0; i < nc; i++ {
+		c14ConcurrentCase(out, r)
 	}
 }
 
